@@ -6,6 +6,8 @@ ids="$@"; [ -z "$ids" ] && ids=$(ls seeded)
 for s in $ids; do
   p=${s%-*}
   patch=/verif/seeded/$s/patch.diff
+  # a patch re-applied by hand after a fix: commit moved its lines takes precedence (newest first)
+  reb=$(ls -t /verif/seeded/$s/patch_rebased_*.diff 2>/dev/null | head -1); [ -n "$reb" ] && patch=$reb
   d=$(mktemp -d /var/tmp/seedm.XXXX); rsync -a /repo/src $d/
   if ! (cd $d && patch -p1 -s --no-backup-if-mismatch < $patch >/dev/null 2>&1); then
      rm -rf $d; d=$(mktemp -d /var/tmp/seedm.XXXX); rsync -a /repo/src $d/
